@@ -48,6 +48,7 @@ func sceneNewBatch(o ReqOpts) {
 	enough := cnt > 0 && cnt >= int(th)
 	issue := running && enough && (pre.SuperMode || s.BalC0.GTE(total))
 	chk("C09", immutableCtx(pre, post), "ctx-immutable-fields")
+	chk("C06 C09", sameAddrs(post.Providers, pre.Providers), "provider-list-untouched-by-batch-start")
 	chk("C05", vf.ModuleBalance(types.DepositAccName).Equal(s.DepAcc0), "deposits-untouched")
 	if issue {
 		vf.Reach("issued")
@@ -68,7 +69,7 @@ func sceneNewBatch(o ReqOpts) {
 			if pre.SuperMode {
 				chk("C07 C02", req.ServiceFee.Empty(), "super-no-fee")
 			} else {
-				chk("C07 C01", req.ServiceFee.AmountOf(Denom).Equal(fee[i]), "fee-is-price")
+				chk("C07 C01 C06 C02", req.ServiceFee.AmountOf(Denom).Equal(fee[i]), "fee-is-price")
 				chk("C06", req.ServiceFee.AmountOf(Denom).LTE(capAmt), "fee-within-cap")
 				chk("C07", req.ServiceFee.AmountOf(Denom).LTE(sdk.MaxInt(s.Binds[i].Pricing.Price.AmountOf(Denom), sdk.OneInt())), "fee-at-most-base-price")
 			}
@@ -82,7 +83,7 @@ func sceneNewBatch(o ReqOpts) {
 			chk("C01", esc1.Sub(s.Esc0).Equal(total), "escrow-gains-sum-of-fees")
 		}
 		chk("C09 C10", vf.All(post.BatchCounter == bc+1, post.BatchState == types.BATCHRUNNING, post.State == types.RUNNING), "batch-started")
-		chk("C12", vf.All(int(post.BatchRequestCount) == cnt, post.BatchResponseCount == 0, post.BatchResponseThreshold == th), "batch-counts")
+		chk("C12 C02 C08 C16 C11 C01", vf.All(int(post.BatchRequestCount) == cnt, post.BatchResponseCount == 0, post.BatchResponseThreshold == th), "batch-counts")
 		chk("C11", k.HasRequestBatchExpiration(ctx, id), "expiry-queued")
 		chk("C11 C08 C10", expiryAt(k, ctx, id, s.H+timeout), "expiry-at-issue-plus-timeout")
 		chk("C12", vf.All(len(s.Log.Resp) == 0, len(s.Log.State) == 0), "no-callback-at-issue")
